@@ -33,6 +33,9 @@ inductive Q where
   | allForSale (page : PageReq)
   | init (address : String)
   | allInits (page : PageReq)
+  /-- `Keeper.Resolve` — what the other modules use to turn a recipient / referrer string into an
+  account; `lname` = `strings.ToLower name` -/
+  | resolve (name lname : String)
   deriving Repr, Inhabited
 
 inductive Resp where
@@ -45,6 +48,7 @@ inductive Resp where
   | listings (items : List Listing) (nextKey : Option String) (total : Nat)
   | flag (b : Bool)
   | flags (items : List Bool) (nextKey : Option String) (total : Nat)
+  | addr (a : String)
   deriving DecidableEq, Repr, Inhabited
 
 def paged {V : Type} (mk : List V → Option String → Nat → Resp) (entries : List (String × V)) (r : PageReq) : Resp :=
@@ -92,6 +96,23 @@ def primaryQuery (s : State) (owner : String) : Resp :=
       | none => .err
     | _ => .err
 
+/-- `Keeper.Resolve`: a string that is an address resolves to itself; otherwise it is parsed as a
+name (the *whole* text before the TLD is the name — a dotted label is a name of its own, not a
+record of its parent), looked up lower-cased, and the owner recorded there is the answer when it
+is an address -/
+def resolve (s : State) (raw lname : String) : Option String :=
+  match acct s raw with
+  | some a => some a
+  | none =>
+    if raw.length = 0 then none
+    else
+      match nameAndTLD raw, nameAndTLD lname with
+      | some (_, tld), some (ln, _) =>
+        match AMap.get s.names (nameKey ln tld) with
+        | some w => acct s w.value
+        | none => none
+      | _, _ => none
+
 def listOwned (s : State) (address : String) (page : Option PageReq) : Resp :=
   let reverse := match page with | some p => p.reverse | none => false
   let limit := match page with | some p => p.limit | none => 100
@@ -111,5 +132,6 @@ def run (s : State) : Q → Resp
   | .allForSale p => paged .listings (saleEntries s) p
   | .init a => .flag (AMap.contains s.inits a)
   | .allInits p => paged .flags (initEntries s) p
+  | .resolve raw lname => match resolve s raw lname with | some a => .addr a | none => .err
 
 end Canine.Rns.Query
